@@ -30,8 +30,8 @@ CLAIMS = {
  "C11": ("Coq theorems on regenerated functions: CINFO = max(w,8)-8 <= 7; window_bits < 12 forces (one probe + RLE) or no matches; 12..14 forces level <= 1 (all 16x11x5 configurations by kernel computation). Token-level maximal distance and a decode on a ring of exactly the declared size are checked per run. Two genuine defects found and fixed (fix: commits 7072712, c521b8c).",
          "PARTIAL: that compress_fast/compress_normal honour the distance cap is decided per run on the token trace, not proved.",
          "Coq proof over source-regenerated routing + spec token oracle"),
- "C13": ("Coq theorems on the model of inflate(): full-flush => stream error with no effect; errors sticky (same class, nothing consumed/written); non-Finish after Finish => stream error. Exhaustive/random call sequences are compared with the model line by line and judged by the protocol clauses and the spec plaintext.",
-         "PARTIAL: counts/progress/stream-end clauses depend on the core contract (K_core) and are decided per run.",
+ "C13": ("Coq theorems on the model of inflate(): full-flush => stream error with no effect; errors sticky (same class, nothing consumed/written); non-Finish after Finish => stream error; and for every state reachable from a constructor or reset, every input, output length and flush value: consumed <= offered, delivered <= out_len, window bookkeeping (dict_ofs + dict_avail <= 32768) preserved - built on the core frame theorem. Exhaustive/random call sequences are compared with the model line by line and judged by the protocol clauses and the spec plaintext.",
+         "PARTIAL: the progress and stream-end clauses (and prefix-of-plaintext) need the simulation M_inf -> specification and are decided per run.",
          "Coq proof on the wrapper model + differential + protocol oracle"),
  "C14": ("Coq theorems on the model of deflate()/compress_inner (control plane shared by all levels): empty output refused with the compressor untouched; after stream end Finish => stream end/0/0 and anything else => buffer error; non-Finish after Finish => parameter error consuming and emitting nothing. Exhaustive/random call sequences vs model (byte-exact at level 0) and protocol oracle.",
          "PARTIAL: progress/termination under Finish decided per run; engines above level 0 not modelled.",
@@ -39,9 +39,9 @@ CLAIMS = {
  "C15": ("Coq theorems on the bound formula REGENERATED from src/lib.rs: no overflow below 2^56, equals 128+n+n/8+5(n/31744+1) (dominates miniz's max(128+1.1n, 128+n+5(n/31744+1)); allows 9 bits per input byte), monotone; and for EVERY input the level-0 zlib output of the compress_to_vec model has exactly 2+n+5(floor(n/31745)+1)+4 bytes and is within the bound (C15_level0_output_within_bound, via the level-0 round-trip theorem). Adversarial search over content classes/levels/strategies (incl. 9-bit literals under the fixed code beyond the window: the defect repaired in ff08c25) records the worst size/bound ratio.",
          "PARTIAL BY NATURE: the worst-case size of Huffman-coded blocks for every input is not proved (needs optimality bounds of length-limited codes).",
          "Coq proof over source-regenerated formula + adversarial search"),
- "C02": ("Coq theorem on the model of the control plane + stored engine (compress_inner, flush_block, flush_output_buffer, compress_stored; every flag word with FORCE_ALL_RAW_BLOCKS): for every compressor state, chunk, output length and flush mode a call reports consumed <= offered and written <= out_len (loop invariant over the stored engine and the pending-output bookkeeping). Losslessness under (level, strategy, format, window bits) x schedules x sinks is decided per explored schedule by the extracted specification on the concatenated output; level-0 lines are byte-exact against the model.",
-         "PARTIAL: engines above level 0 (match finders, Huffman coder) are not modelled; the forall round-trip statement (T_frame o format round trip) is open.",
-         "Coq invariant proof on the control-plane model + extracted-spec oracle + differential"),
+ "C02": ("Coq theorems on the model of the control plane + stored engine (compress_inner, flush_block, flush_output_buffer, compress_stored; every flag word with FORCE_ALL_RAW_BLOCKS, tied to the code line by line on every run): (a) for every compressor state, chunk, output length and flush mode a call reports consumed <= offered and written <= out_len; (b) losslessness under EVERY schedule at level 0: for every input and every sequence of compress() calls (any chunking, any output buffer lengths, flush None/Sync/Full/Finish, unconsumed input offered again) that ends with Done, the concatenated output is decoded by the RFC 1951/1950 specification to exactly the input consumed, with all output used (invariant: what has been delivered plus what is pending is a header followed by whole stored blocks carrying the prefix flushed so far). For levels 1-10 losslessness under (level, strategy, format, window bits) x schedules x sinks is decided per explored schedule by the extracted specification on the concatenated output.",
+         "PARTIAL: engines above level 0 (match finders, Huffman coder) are not modelled; the forall-schedule theorem is partial correctness (schedules on which the model returns) at level 0 with flush values None/Sync/Full/Finish.",
+         "Coq invariant/refinement proof on the control-plane + stored-engine model + extracted-spec oracle + differential"),
  "C07": ("Coq theorem on M_inf: suspend/resume of the bit reader - if read_bits starves on a prefix of the input, resuming from the saved state with the rest equals reading the whole input at once, for every state, bit count, continuation and flag words (base case of T_sim). The property is decided per explored stream by comparing every single cut point (directed corpus up to 1300 bytes), byte-wise feeding, budget sweeps and random partitions with each other within flat / ring / inflate(), plus the model line by line.",
          "PARTIAL: the lift to the whole automaton (T_sim) is open.",
          "Coq proof (resume lemma) + exhaustive cut-point differential"),
